@@ -1,6 +1,7 @@
 import ArmiVerif.Model.Proto
 import ArmiVerif.Model.AxialExp
-open ArmiVerif ArmiVerif.Proto ArmiVerif.AxialExp
+import ArmiVerif.Model.Linkage
+open ArmiVerif ArmiVerif.Proto ArmiVerif.AxialExp ArmiVerif.Linkage
 
 def parseOptNat? (s : String) : Option (Option Nat) :=
   if s = "_" then some none else (parseNat? s).map some
@@ -23,6 +24,25 @@ def showComp (c : Comp) : String := showList showRat [c.nd, c.h, c.zb, c.zt]
 def showBlock (b : Block) : String :=
   "[" ++ showRat b.h ++ "," ++ showRat b.zb ++ "," ++ showRat b.zt ++ "," ++ showList showComp b.comps ++ "]"
 
+/-- geometry of one solid component: [ty, unshaped(0/1), solid(0/1), mult, id, od] -/
+def parseGeo? (s : String) : Option Geo := do
+  let xs ← parseRatList? s
+  match xs with
+  | [ty, un, so, m, i, o] => some { ty := ty.num.toNat, unshaped := un != 0, solid := so != 0, mult := m, idc := i, odc := o }
+  | _ => none
+
+def showOptNat : Option Nat → String
+  | none => "_"
+  | some n => toString n
+
+def showLink (x : Option Nat × Option Nat) : String := "(" ++ showOptNat x.1 ++ "," ++ showOptNat x.2 ++ ")"
+
+def parseTComp? (s : String) : Option TComp := do
+  let xs ← parseNatList? s
+  match xs with
+  | [f, so] => some { flags := f, solid := so != 0 }
+  | _ => none
+
 def answer : List String → String
   | ["expand", hs, zbs, zts, nds, areas, gs, lowers, targets] =>
     match parseRatList? hs, parseRatList? zbs, parseRatList? zts, parseList? parseRatList? nds,
@@ -36,6 +56,50 @@ def answer : List String → String
         | none => "reject"
       | none => "bad-op"
     | _, _, _, _, _, _, _, _ => "bad-op"
+  -- the same expansion with the linkage computed by the model from the component geometry
+  | ["expandg", hs, zbs, zts, nds, areas, gs, geo, targets] =>
+    match parseRatList? hs, parseRatList? zbs, parseRatList? zts, parseList? parseRatList? nds,
+          parseList? parseRatList? areas, parseList? parseRatList? gs,
+          parseList? (parseList? parseGeo?) geo, parseList? parseOptNat? targets with
+    | some hs, some zbs, some zts, some nds, some areas, some gs, some geo, some targets =>
+      match mkBlocks hs zbs zts nds areas, linkAssembly none geo with
+      | some a, some links =>
+        let lowers := links.map (fun l => l.map (·.1))
+        match expand (mkInp gs lowers targets) a with
+        | some r => showList showBlock r ++ " " ++ showList showRat (mesh r)
+        | none => "reject"
+      | some _, none => "reject"
+      | none, _ => "bad-op"
+    | _, _, _, _, _, _, _, _ => "bad-op"
+  | ["link", geo] =>
+    match parseList? (parseList? parseGeo?) geo with
+    | some geo => showOpt (showList (showList showLink)) (linkAssembly none geo)
+    | none => "bad-op"
+  | ["linked", a, b] =>
+    match parseGeo? a, parseGeo? b with
+    | some a, some b => showBool (linked a b)
+    | _, _ => "bad-op"
+  | ["aligned", geo, targets, shape] =>
+    match parseList? (parseList? parseGeo?) geo, parseList? parseOptNat? targets, parseNatList? shape with
+    | some geo, some targets, some shape =>
+      showList showBool ((List.range geo.length).map (alignedB geo (fun i => (targets[i]?).getD none) shape))
+    | _, _, _ => "bad-op"
+  -- target <plenum> <aclp> <dummy> <fuel> <clad> <preferred> <setFuel> <bflags> <explicit: - | x | i> <children [[flags,solid],..]>
+  | ["target", pl, ac, du, fu, cl, pref, sf, bf, ex, cs] =>
+    match parseNat? pl, parseNat? ac, parseNat? du, parseNat? fu, parseNat? cl, parseNatList? pref, parseBool? sf,
+          parseNat? bf, parseList? parseTComp? cs with
+    | some pl, some ac, some du, some fu, some cl, some pref, some sf, some bf, some cs =>
+      let ex? : Option (Option (Option Nat)) :=
+        if ex = "-" then some none else if ex = "x" then some (some none) else (parseNat? ex).map (fun i => some (some i))
+      match ex? with
+      | some e =>
+        match setTarget { plenum := pl, aclp := ac, dummy := du, fuel := fu, clad := cl, preferred := pref } sf
+            { flags := bf, explicit := e, comps := cs } with
+        | .noTarget => "none"
+        | .target i => toString i
+        | .error => "reject"
+      | none => "bad-op"
+    | _, _, _, _, _, _, _, _, _ => "bad-op"
   | _ => "bad-op"
 
 def main : IO Unit := loop answer
